@@ -200,14 +200,34 @@ def gen_ops(rng, spec):
     return ops
 
 
+def _modify_corpus():
+    """the operator corrects a file's registered size or digest: every copy that stays recorded healthy must still agree with storage"""
+    out = []
+    for wants in ("Y", "M"):
+        for stype in ("A", "F"):
+            for opt in ("--size=4096", "--md5=" + "ab" * 16):
+                spec = {"groups": [{"name": "g1"}, {"name": "g2"}],
+                        "nodes": [{"name": "n1", "group": "g1", "stype": stype, "host": "h1", "active": True, "username": "u", "address": "addr"},
+                                  {"name": "n2", "group": "g2", "stype": "A", "host": "h2", "active": True, "username": "u", "address": "addr"}],
+                        "acqs": ["acq1"], "files": [{"acq": "acq1", "name": "f0.dat", "size": 13}, {"acq": "acq1", "name": "sub/f1", "size": 150}],
+                        "copies": [{"file": 0, "node": "n1", "has": "Y", "wants": wants}, {"file": 0, "node": "n2", "has": "Y", "wants": "Y"}, {"file": 1, "node": "n1", "has": "Y", "wants": "Y"}],
+                        "reqs": [], "rules": [], "unregistered": [], "ireqs": []}
+                out.append((spec, [("iter", "h1"), ("cli", "file modify", ["acq1/f0.dat", opt]), ("iter", "h1"), ("iter", "h2"), ("iter", "h1")]))
+    return out
+
+
 def explore(ctx):
     base = ctx.tmp()
     q = ctx.quick()
     terms, keep = [], []
     last = None
-    for k in range(60 if q else 2000):
-        spec = histories.gen_spec(ctx.rng)
-        ops = gen_ops(ctx.rng, spec)
+    corpus = _modify_corpus()
+    for k in range((60 if q else 2000) + len(corpus)):
+        if k < len(corpus):
+            spec, ops = corpus[k]
+        else:
+            spec = histories.gen_spec(ctx.rng)
+            ops = gen_ops(ctx.rng, spec)
         changed, snap = run_history(ctx, base, spec, ops, terms, keep)
         ctx.count("history")
         ctx.count("snapshots", len(ops))
